@@ -24,6 +24,7 @@ type ParentCtx struct {
 	Seed     int64
 	RunDir   string
 	VerifDir string
+	OutDir   string // where evidence and replays go (== VerifDir except for calibration runs)
 	RepoDir  string
 	BinDir   string // directory holding the freshly built binaries (vmon, vmon-race, …)
 	S        *Stats // merged over all replicas
@@ -97,7 +98,11 @@ func ParentMain(propID, tier string, replayFile string) int {
 	if p.Race {
 		childBin = filepath.Join(binDir, "vmon-race")
 	}
-	runDir := filepath.Join(verifDir, ".run", fmt.Sprintf("%s-%s", propID, tier))
+	// VERIF_OUT redirects everything a run writes (run dir, evidence, replays); it is
+	// set by ./check for calibration runs against a scratch copy so that they never
+	// touch the evidence of the real tree.
+	outDir := envOr("VERIF_OUT", verifDir)
+	runDir := filepath.Join(outDir, ".run", fmt.Sprintf("%s-%s", propID, tier))
 	os.RemoveAll(runDir)
 	if err := os.MkdirAll(runDir, 0755); err != nil {
 		fmt.Println("cannot create run dir:", err)
@@ -364,7 +369,7 @@ func ParentMain(propID, tier string, replayFile string) int {
 			total.Notes["second_toolchain"] = "skipped: " + p.AltBinLastReplica + " was not built for this tier"
 		}
 	}
-	pc := &ParentCtx{Prop: p, Tier: tier, Seed: seed, RunDir: runDir, VerifDir: verifDir, RepoDir: repoDir, BinDir: binDir, S: total, Replica: perReplica}
+	pc := &ParentCtx{Prop: p, Tier: tier, Seed: seed, RunDir: runDir, OutDir: outDir, VerifDir: verifDir, RepoDir: repoDir, BinDir: binDir, S: total, Replica: perReplica}
 	if p.Post != nil && len(inconclusive) == 0 {
 		func() {
 			defer func() {
@@ -391,7 +396,7 @@ func ParentMain(propID, tier string, replayFile string) int {
 			known[f.Signature] = f
 		}
 	}
-	os.MkdirAll(filepath.Join(verifDir, "replays"), 0755)
+	os.MkdirAll(filepath.Join(outDir, "replays"), 0755)
 	var sigs []string
 	for s := range total.ViolCount {
 		sigs = append(sigs, s)
@@ -417,7 +422,7 @@ func ParentMain(propID, tier string, replayFile string) int {
 		if ex == nil {
 			ex = &Violation{Property: propID, Signature: sig, Tier: tier, Seed: seed, Index: -1, What: "(details dropped by cap)"}
 		}
-		path := filepath.Join(verifDir, "replays", fmt.Sprintf("%s-%s-seed%d-%s.json", propID, tier, seed, sanitize(sig)))
+		path := filepath.Join(outDir, "replays", fmt.Sprintf("%s-%s-seed%d-%s.json", propID, tier, seed, sanitize(sig)))
 		b, _ := json.MarshalIndent(ex, "", " ")
 		os.WriteFile(path, b, 0644)
 		if printed < 20 {
